@@ -569,11 +569,11 @@ V(id='c14-benign-more-guard', prop='C14', file='mpmath/libmp/libmpi.py',
 
 # ---------------------------------------------------------------- C15 -------
 V(id='c15-gamma-cross-direction', prop='C15', file='mpmath/libmp/libmpi.py',
-  old="        maxim = mpc_loggamma((a2,b2), wp, round_ceiling)\n\n    w =", new="        maxim = mpc_loggamma((a2,b2), wp, round_floor)\n\n    w =",
+  old="        maxim = mpc_outward(mpc_loggamma, (a2,b2), wp, round_ceiling, 1)\n\n    w =", new="        maxim = mpc_outward(mpc_loggamma, (a2,b2), wp, round_floor, 1)\n\n    w =",
   expect='fire:C-R3:mpci_gamma')
 V(id='c15-gamma-upper-half-direction', prop='C15', file='mpmath/libmp/libmpi.py',
-  old="        minre = mpc_loggamma((a1,b2), wp, round_floor)\n        maxre = mpc_loggamma((a2,b1), wp, round_ceiling)",
-  new="        minre = mpc_loggamma((a1,b2), wp, round_ceiling)\n        maxre = mpc_loggamma((a2,b1), wp, round_ceiling)",
+  old="        minre = mpc_outward(mpc_loggamma, (a1,b2), wp, round_floor, 0)\n        maxre = mpc_outward(mpc_loggamma, (a2,b1), wp, round_ceiling, 0)",
+  new="        minre = mpc_outward(mpc_loggamma, (a1,b2), wp, round_ceiling, 0)\n        maxre = mpc_outward(mpc_loggamma, (a2,b1), wp, round_ceiling, 0)",
   expect='fire:C-R3:mpci_gamma')
 V(id='c15-cos-neg-dropped-swap', prop='C15', file='mpmath/libmp/libmpi.py',
   old="    im = mpi_mul(s, sh, prec)\n    return re, mpi_neg(im)", new="    im = mpi_mul(s, sh, prec)\n    return re, (mpf_neg(im[0]), mpf_neg(im[1]))",
@@ -2685,3 +2685,25 @@ V(id='c07-long-string-piece-with-sign', prop='C07', file='mpmath/libmp/libmpf.py
   old="    if not x or x[0] in '+-' or x[0].isspace() or x[-1].isspace():\n        raise ValueError(\"invalid literal for int(): %r\" % x[:30])\n    if len(x) <= 600:\n        return int(x, base)\n    half",
   new="    if len(x) <= 600:\n        return int(x, base)\n    half",
   expect='fire:L-R2:_digits_to_int')
+
+# ---- C15 third hunt: C-R14c / C-R19c complex kernel corners through mpc_outward (fix 728ceda) ----
+V(id='c15-gamma-corner-straight-from-kernel', prop='C15', file='mpmath/libmp/libmpi.py',
+  old="        maxre = mpc_outward(mpc_loggamma, (a2,fzero), wp, round_ceiling, 0)\n", new="        maxre = mpc_loggamma((a2,fzero), wp, round_ceiling)[0]\n",
+  expect='fire:C-R14c:mpci_gamma')
+V(id='c15-mpc-outward-no-extra-bits', prop='C15', file='mpmath/libmp/libmpi.py',
+  old="    outward by 2^10 units of that precision of the larger part before the\n    final rounding (compare mpf_outward).\n    \"\"\"\n    wp = prec + 20\n",
+  new="    outward by 2^10 units of that precision of the larger part before the\n    final rounding (compare mpf_outward).\n    \"\"\"\n    wp = prec + 2\n",
+  expect='fire:C-R19c:mpc_outward')
+V(id='c15-mpc-outward-allowance-relative-to-own-part', prop='C15', file='mpmath/libmp/libmpi.py',
+  old="    delta = (0, MPZ_ONE, max(mags) + 10 - wp, 1)\n", new="    delta = (0, MPZ_ONE, x[2] + x[3] + 10 - wp, 1)\n",
+  expect='fire:C-R19c:mpc_outward')
+V(id='c15-mpc-outward-allowance-inward', prop='C15', file='mpmath/libmp/libmpi.py',
+  old="    if rounding == round_floor:\n        return mpf_sub(x, delta, prec, round_floor)\n    return mpf_add(x, delta, prec, round_ceiling)\n",
+  new="    if rounding == round_floor:\n        return mpf_add(x, delta, prec, round_floor)\n    return mpf_sub(x, delta, prec, round_ceiling)\n",
+  expect='fire:C-R19c:mpc_outward')
+V(id='c15-mpc-outward-short-values-pass', prop='C15', file='mpmath/libmp/libmpi.py',
+  old="    if not mags or (not x[1] and x[2]):\n        return x\n", new="    if not mags or (not x[1] and x[2]) or x[3] <= prec:\n        return x\n",
+  expect='fire:C-R19c:mpc_outward')
+V(id='c15-benign-mpc-outward-more-allowance', prop='C15', file='mpmath/libmp/libmpi.py',
+  old="    delta = (0, MPZ_ONE, max(mags) + 10 - wp, 1)\n", new="    delta = (0, MPZ_ONE, max(mags) + 12 - wp, 1)\n",
+  expect='silent')
